@@ -2,6 +2,8 @@ package eng
 
 import (
 	"fmt"
+	"os"
+	"runtime/debug"
 	"go/token"
 	"go/types"
 	"math/big"
@@ -60,6 +62,7 @@ type State struct {
 	Disc    *Discovery
 	Trace   []TraceEv // primitive reads etc. for replay
 	Depth   int
+	Views   map[int]viewOrigin // slices that are views of arrays stored as tokens (write-back on modification)
 }
 
 type iterState struct {
@@ -99,6 +102,10 @@ func (st *State) clone() *State {
 		Cells: make(map[int]cellContent, len(st.Cells)), Iters: make(map[int]iterState, len(st.Iters)),
 		Ghost: make(map[string]*Term, len(st.Ghost)), Written: make(map[string]bool, len(st.Written)),
 		Disc: st.Disc, Trace: append([]TraceEv(nil), st.Trace...), Depth: st.Depth,
+		Views: make(map[int]viewOrigin, len(st.Views)),
+	}
+	for k, v := range st.Views {
+		n.Views[k] = v
 	}
 	for k, v := range st.Heap {
 		n.Heap[k] = v
@@ -281,6 +288,10 @@ func (e *Engine) maxElems(elT types.Type) *big.Int {
 	return new(big.Int).Div(maxLen, big.NewInt(sz))
 }
 
+// maxExisting bounds the element count of slices that exist (well-formedness): 2^36 elements,
+// a memory bound far below the runtime's allocation limit for every element size that occurs.
+var maxExisting = new(big.Int).Lsh(big.NewInt(1), 36)
+
 func (e *Engine) wfLeaf(st *State, l Leaf, t *Term) {
 	tb := e.tb
 	switch l.Kind {
@@ -323,9 +334,11 @@ func (e *Engine) wfVal(st *State, T types.Type, v Val) {
 			if arr.Op == "int" && ln.Op == "int" {
 				continue
 			}
-			mx := maxLen
+			mx := maxExisting
 			if sl, ok := l.Typ.Underlying().(*types.Slice); ok {
-				mx = e.maxElems(sl.Elem())
+				if m2 := e.maxElems(sl.Elem()); m2.Cmp(mx) < 0 {
+					mx = m2
+				}
 			}
 			e.assume(st, tb.And(tb.Le(tb.Int(0), off), tb.Le(tb.Int(0), ln), tb.Le(ln, cp), tb.Le(tb.Add(off, cp), tb.BigInt(mx)),
 				tb.Implies(tb.Eq(arr, tb.Int(0)), tb.And(tb.Eq(cp, tb.Int(0)), tb.Eq(off, tb.Int(0))))))
@@ -675,7 +688,12 @@ func (e *Engine) escape(st *State, T types.Type, v Val) Val {
 // unsupported builds the panic value for out-of-subset constructs.
 type unsupportedErr struct{ msg string }
 
-func (e *Engine) unsupported(msg string) unsupportedErr { return unsupportedErr{msg} }
+func (e *Engine) unsupported(msg string) unsupportedErr {
+	if os.Getenv("GOVC_DEBUG") != "" && e.logOff == 0 {
+		fmt.Fprintf(os.Stderr, "UNSUPPORTED: %s\n%s\n", msg, debug.Stack())
+	}
+	return unsupportedErr{msg}
+}
 
 // newObject allocates a zeroed heap object of type T and returns its reference.
 func (e *Engine) newObject(st *State, T types.Type) *Term {
